@@ -482,3 +482,134 @@ def rule_max_clique_templates(F, R):
     for k in extra:
         R.violation('max_clique_gen::main / L / unexpected template %s' % ' '.join(k), 'L', 'emitted text %r tokenises to %s, which is not part of the reference skeleton of the clique formula' % (got[k][0][0], ' '.join(k)), got[k][0][1])
     R.sample({'rule': 'L templates', 'pieces': {' '.join(k): v[0][0] for k, v in got.items()}})
+
+def rule_graph_writers(F, R):
+    """C18 writers: every edge of the selection is written once, source first: `a,b` (edge list), `a -- b` inside `graph G {}` when
+    undirected, `a -> b` inside `digraph G {}` otherwise; the selection written is the one that was generated / converted / coloured."""
+    import engine_u
+    c = F.crate('random_graph_gen')
+    t = c.thir.get('random_graph_gen::main') if c else None
+    if t is None:
+        R.violation('random_graph_gen::main / L / writers anchor', 'UNDECIDABLE', 'random_graph_gen::main not found'); return
+    # walk the If-structure on args.dot / args.undirected and collect (context, template, argument fields, iterated variable)
+    found = []
+    def visit(e, ctx):
+        if not isinstance(e, dict): return
+        if e['k'] == 'If' and e['cond']['k'] != 'Let':
+            cnd = strip(e['cond'])
+            neg = False
+            while cnd['k'] == 'Unary' and cnd['op'] == 'Not': cnd = strip(cnd['arg']); neg = not neg
+            if cnd['k'] == 'Field' and cnd.get('field_name') in ('dot', 'undirected'):
+                fn = cnd['field_name']
+                visit(e['then'], ctx + [(fn, not neg)])
+                if e['else'] is not None: visit(e['else'], ctx + [(fn, neg)])
+                return
+        if e['k'] == 'Match' and strip(e['scrutinee'])['k'] == 'Call' and callee_decl(strip(e['scrutinee'])) == 'std::iter::IntoIterator::into_iter':
+            src = root_var(strip(e['scrutinee'])['args'][0])
+            for x in walk(e):
+                if x['k'] == 'Call' and (callee_name(x) or '').endswith('write_fmt'):
+                    tup = [y for y in walk(x) if y['k'] == 'Tuple' and len(y['fields']) == 2]
+                    tm = [y for y in walk(x) if y['k'] == 'Literal' and y.get('lit') == 'ByteStr']
+                    if tup and tm:
+                        flds = []
+                        for f in tup[0]['fields']:
+                            g = strip(f)
+                            flds.append((root_var(g['lhs']) if g['k'] == 'Field' else None, g.get('field') if g['k'] == 'Field' else None))
+                        try: text = engine_u.decode_template(tm[0]['value'])
+                        except Exception: text = None
+                        found.append((tuple(ctx), text, flds, src, x['loc']))
+            return
+        if e['k'] == 'Call' and (callee_name(e) or '').endswith('write_fmt'):
+            lits = [y['value'] for y in walk(e) if y['k'] == 'Literal' and y.get('lit') == 'Str']
+            if lits: found.append((tuple(ctx), lits[0], None, None, e['loc']))
+        for ch in children(e): visit(ch, ctx)
+    visit(t['body'], [])
+    edge_writes = [f for f in found if f[2] is not None]
+    R.count('L:edge-writer-sites', len(edge_writes))
+    want = {(('dot', True), ('undirected', True)): '{} -- {}', (('dot', True), ('undirected', False)): '{} -> {}', (('dot', False),): '{},{}'}
+    heads = {(('dot', True), ('undirected', True)): 'graph G {', (('dot', True), ('undirected', False)): 'digraph G {'}
+    for ctx, tmpl in want.items():
+        ws = [f for f in edge_writes if f[0] == ctx]
+        ok = len(ws) == 1 and ws[0][1] is not None and ws[0][1].strip() == tmpl
+        if ok:
+            (a, i0), (b, i1) = ws[0][2]
+            ok = a is not None and a == b and (i0, i1) == (0, 1) and (ws[0][3] or '').startswith('selection')
+        R.obligation(ok, 'L writer %s' % (ctx,))
+        if not ok:
+            R.violation('random_graph_gen::main / L / writer %s' % ' '.join('%s=%s' % kv for kv in ctx), 'L',
+                        'in mode %s every edge of `selection` must be written once as `%s` with (source, target) in that order; found %s' % (dict(ctx), tmpl, [(w[1], w[2], w[3]) for w in ws]))
+    for ctx, h in heads.items():
+        hs = [f[1].strip() for f in found if f[0] == ctx and f[2] is None]
+        ok = h in hs and '}' in hs
+        R.obligation(ok, 'L head %s' % (ctx,))
+        if not ok:
+            R.violation('random_graph_gen::main / L / dot header %s' % ' '.join('%s=%s' % kv for kv in ctx), 'L', 'dot output in mode %s must be wrapped in `%s` ... `}`; found %s' % (dict(ctx), h, hs))
+
+def rule_colour_vertices(F, R):
+    """C18 --colors: one product vertex `<v>_c<k>` per input vertex v and colour k in 0..N, mapped back to (v, k); N is the number given on the command line"""
+    import engine_u
+    c = F.crate('random_graph_gen')
+    t = c.thir.get('random_graph_gen::augment_colors') if c else None
+    m = c.thir.get('random_graph_gen::main') if c else None
+    if t is None or m is None:
+        R.violation('random_graph_gen::augment_colors / L / anchor', 'UNDECIDABLE', 'augment_colors not found'); return
+    # colour range 0..num_colors
+    rng_ok = False
+    for e in walk(t['body']):
+        if e['k'] == 'Adt' and canon(e['adt']) == 'std::ops::Range':
+            lo = [f['expr'] for f in e['fields'] if f['name'] == 'start'][0]; hi = [f['expr'] for f in e['fields'] if f['name'] == 'end'][0]
+            if strip(lo).get('value') == '0' and (root_var(hi) or '').startswith('num_colors') and strip(hi)['k'] == 'VarRef': rng_ok = True
+    R.count('L:colour-range'); R.obligation(rng_ok, 'L colour range')
+    if not rng_ok: R.violation('random_graph_gen::augment_colors / L / colour range', 'L', 'colours must range over 0..num_colors')
+    # names and maps
+    lets = {}
+    for b in walk(t['body']):
+        if b['k'] == 'Block':
+            for s in b['stmts']:
+                if s['k'] == 'Let' and s['init'] is not None:
+                    q = unwrap_pat(s['pat'])
+                    if q['k'] == 'Binding': lets[q['var']] = s['init']
+    def name_parts(var):
+        init = lets.get(var)
+        if init is None: return None
+        tm = [y for y in walk(init) if y['k'] == 'Literal' and y.get('lit') == 'ByteStr']
+        tup = [y for y in walk(init) if y['k'] == 'Tuple' and len(y['fields']) == 2]
+        if not tm or not tup: return None
+        try: text = engine_u.decode_template(tm[0]['value'])
+        except Exception: return None
+        a, b = [strip(f) for f in tup[0]['fields']]
+        return text, (a.get('field') if a['k'] == 'Field' else None), (root_var(b) or '').split('#')[0]
+    ins = [e for e in walk(t['body']) if e['k'] == 'Call' and callee_name(e) == 'std::collections::HashMap::insert']
+    vmap = {}; cmap = {}
+    for e in ins:
+        tbl = (root_var(e['args'][0]) or '').split('#')[0]
+        key = root_var(e['args'][1]); val = strip(e['args'][2])
+        while val['k'] == 'Call' and callee_decl(val) == 'std::clone::Clone::clone': val = strip(val['args'][0])
+        np = name_parts(key)
+        if tbl == 'vertex_map': vmap[key] = (np, val.get('field') if val['k'] == 'Field' else None)
+        if tbl == 'color_map': cmap[key] = (np, (root_var(val) or '').split('#')[0])
+    ok = len(vmap) == 2 and len(cmap) == 2 and set(vmap) == set(cmap)
+    if ok:
+        ends = set()
+        for k, (np, fld) in vmap.items():
+            ok = ok and np is not None and np[0] == '{}_c{}' and np[1] == fld and np[2] == 'color' and cmap[k][1] == 'color'
+            ends.add(fld)
+        ok = ok and ends == {0, 1}
+    R.count('L:colour-vertex-maps', len(vmap) + len(cmap)); R.obligation(ok, 'L colour maps')
+    if not ok:
+        R.violation('random_graph_gen::augment_colors / L / product vertices', 'L', 'for each edge end e.k and colour c the vertex `<e.k>_c<c>` must be mapped back to e.k and to c; found vertex_map=%s color_map=%s' % (
+            {k.split('#')[0]: v for k, v in vmap.items()}, {k.split('#')[0]: v for k, v in cmap.items()}))
+    # main: selection = augment_colors(&selection, N) with N the payload of args.colors
+    ok = False
+    for e in walk(m['body']):
+        if e['k'] == 'If' and e['cond']['k'] == 'Let':
+            src = strip(e['cond']['expr'])
+            pat = unwrap_pat(e['cond']['pat'])
+            if src['k'] == 'Field' and src.get('field_name') == 'colors' and pat['k'] == 'Variant' and pat['variant'] == 'Some' and pat['subs']:
+                nv = unwrap_pat(pat['subs'][0]['pat']).get('var')
+                calls = [x for x in walk(e['then']) if x['k'] == 'Call' and callee_name(x) == 'random_graph_gen::augment_colors']
+                asg = [x for x in walk(e['then']) if x['k'] == 'Assign']
+                if len(calls) == 1 and len(asg) == 1:
+                    ok = strip(calls[0]['args'][1]).get('var') == nv and (root_var(calls[0]['args'][0]) or '').startswith('selection') and (root_var(asg[0]['lhs']) or '').startswith('selection')
+    R.count('L:colour-call'); R.obligation(ok, 'L colour call')
+    if not ok: R.violation('random_graph_gen::main / L / --colors', 'L', '--colors N must replace the selection by augment_colors(&selection, N) with N unchanged')
